@@ -3,6 +3,7 @@ package main
 import (
 	"fmt"
 	"math/big"
+	"strings"
 	"go/types"
 	"sync/atomic"
 
@@ -249,4 +250,15 @@ type pathEnd struct {
 
 func unsupported(f string, a ...interface{}) {
 	panic(pathEnd{"UNSUPPORTED", fmt.Sprintf(f, a...)})
+}
+
+// choiceString lists the case-split choices of this path (for diagnostics).
+func (st *State) choiceString() string {
+	var parts []string
+	for _, in := range st.inputs {
+		if in.Kind == "choose" {
+			parts = append(parts, fmt.Sprintf("%s=%d", in.Name, in.Val))
+		}
+	}
+	return strings.Join(parts, ",")
 }
